@@ -237,6 +237,9 @@ var errInjected = errors.New("injected write failure")
 
 // recWriter records every Write call; the failAt-th call (1-based) accepts
 // only `accept` bytes and returns errInjected (io.Writer contract honoured).
+// accept -1: everything taken, error still reported, later writes fail too;
+// accept -2: the same but the fault is transient (later writes succeed);
+// accept -3: nothing taken, transient.
 type recWriter struct {
 	calls  [][]byte
 	failAt int
@@ -246,12 +249,16 @@ type recWriter struct {
 }
 
 func (w *recWriter) Write(p []byte) (int, error) {
-	if w.failed {
+	if w.failed && w.accept > -2 {
 		return 0, errInjected
 	}
 	cp := append([]byte{}, p...)
 	w.calls = append(w.calls, cp)
 	if w.failAt > 0 && len(w.calls) == w.failAt {
+		if w.accept == -3 {
+			w.failed = true
+			return 0, errInjected
+		}
 		if w.accept < 0 {
 			// a writer that took everything and still reports an error (allowed by the io.Writer contract)
 			w.out = append(w.out, p...)
